@@ -44,6 +44,34 @@ def one(util, kind, r, s, n):
     return None
 
 
+def snapshot(out):
+    if isinstance(out, (tuple, list)):
+        return tuple(bytes(x) for x in out)
+    return bytes(out)
+
+
+def held_case(util, kind, n, s1, s2, canon=True):
+    """a signature handed back to the caller must not change when the encoder
+    is called again (no shared output buffer), and must be an immutable
+    bytes value"""
+    name = "sigencode_%s%s" % (kind, "_canonize" if canon else "")
+    enc = getattr(util, name)
+    try:
+        a = enc(1, s1, n)
+        snap = snapshot(a)
+        b = enc(n - 1 if n > 2 else 1, s2, n)
+        again = snapshot(a)
+    except Exception as e:
+        return ("held-output:raises", None, "%s: %s" % (type(e).__name__, e))
+    if again != snap:
+        return ("held-output:changed-by-later-call", snap, again)
+    parts = a if isinstance(a, (tuple, list)) else [a]
+    if not all(isinstance(x, bytes) for x in parts):
+        return ("held-output:not-bytes", "bytes",
+                [type(x).__name__ for x in parts])
+    return None
+
+
 def shard_small(arg):
     lo, hi = arg
     from ecdsa import util
@@ -64,6 +92,16 @@ def shard_small(arg):
                         sh.violation("enc", bad[0],
                                      dict(kind=kind, r=r, s=s, n=n),
                                      bad[1], bad[2])
+        if n > 3:
+            for kind in KINDS:
+                for canon in (True, False):
+                    sh.n += 1
+                    bad = held_case(util, kind, n, n - 1, 1, canon)
+                    if bad:
+                        sh.hist["fail:" + bad[0]] += 1
+                        sh.violation("held", bad[0],
+                                     dict(kind=kind, n=n, s1=n - 1, s2=1,
+                                          canon=canon), bad[1], bad[2])
     sh.sample(dict(n=lo, s="1..n-1", r=[1, lo - 1], encoders=KINDS), cap=1)
     return sh
 
@@ -108,6 +146,15 @@ def shard_big(arg):
                         sh.violation("enc", bad[0],
                                      dict(kind=kind, r=r, s=s, n=n),
                                      bad[1], bad[2])
+        for kind in KINDS:
+            for canon in (True, False):
+                sh.n += 1
+                bad = held_case(util, kind, n, n - 1, 1, canon)
+                if bad:
+                    sh.hist["fail:" + bad[0]] += 1
+                    sh.violation("held", bad[0],
+                                 dict(kind=kind, n=n, s1=n - 1, s2=1,
+                                      canon=canon), bad[1], bad[2])
         sh.sample(dict(order=label, n=hex(n), s_values=len(band(n))), cap=2)
     return sh
 
@@ -167,7 +214,10 @@ def shard_verify(arg):
 
 def replay(check, case):
     from ecdsa import util
-    if check == "enc":
+    if check == "held":
+        bad = held_case(util, case["kind"], case["n"], case["s1"], case["s2"],
+                        case["canon"])
+    elif check == "enc":
         bad = one(util, case["kind"], case["r"], case["s"], case["n"])
     elif check == "verify":
         bad = verify_case(case["rec"], case["qi"], case["digest"], case["r"],
